@@ -347,6 +347,9 @@ Builtin(C, name, vs, st) ==
                  ELSE RV(a[I64ToInt(ix) + 1], st)
      [] name = "array_set" ->
             IF n # 3 \/ vs[1].t # "arr" \/ vs[2].t # "int" THEN RV(VVoid, Fault(st, "stuck:type"))
+            \* INTERP_STATIC_ARRAYS, the other way round: eval.c's array_set accepts only static arrays; on a dynamic array (one that
+            \* array_push made) it prints an error and changes nothing
+            ELSE IF HasDev(C, "INTERP_STATIC_ARRAYS") /\ vs[1].s # "lit" THEN RV(VVoid, st)
             ELSE LET a == ArrOf(st, vs[1]) ix == vs[2].i IN
                  IF I64IsNeg(ix) \/ ~I64IsSmall(ix) \/ I64ToInt(ix) >= Len(a)
                  THEN RV(VVoid, Fault(st, "fault:bounds"))
@@ -438,6 +441,9 @@ Builtin(C, name, vs, st) ==
                  RV(VVoid, [st EXCEPT !.store[vs[1].r] = SelectSeq(es, LAMBDA x : ~ValEq(x.f[1], vs[2]))])
      [] name \in HofBuiltins -> Hof(C, name, vs, st)      \* higher-order library functions (block above)
      [] name = "array_remove_at" /\ n >= 1 /\ vs[1].t = "arr" /\ vs[1].s = "lit" -> RV(VVoid, st)      \* INTERP_STATIC_ARRAYS: refused, void, nothing removed
+     [] name = "array_new" /\ HasDev(C, "INTERP_STATIC_ARRAYS") ->                                     \* INTERP_STATIC_ARRAYS: array_new makes a static array
+            LET r == LibApply(name, vs, st.store) IN
+            IF r.ok = "ok" THEN RV([r.v EXCEPT !.s = "lit"], [st EXCEPT !.store = r.store]) ELSE RV(VVoid, Fault(st, r.ok))
      [] name = "array_slice" /\ n >= 1 /\ vs[1].t = "arr" /\ vs[1].s = "lit" ->                       \* INTERP_STATIC_ARRAYS: the slice of a static array is static
             LET r == LibApply(name, vs, st.store) IN
             IF r.ok = "ok" THEN RV([r.v EXCEPT !.s = "lit"], [st EXCEPT !.store = r.store]) ELSE RV(VVoid, Fault(st, r.ok))
